@@ -17,6 +17,7 @@ mod d_pipe;
 mod d_rx;
 mod d_rxv8;
 mod d_scan;
+mod d_scope;
 mod d_sel;
 
 pub struct Out {
@@ -128,6 +129,7 @@ fn main() {
     "rxv8" => d_rxv8::run(&args),
     "embed" => d_embed::run(&args),
     "cfg" => d_cfg::run(&args),
+    "scope" => d_scope::run(&args),
     "dlint" => d_dlint::run_all(&args),
     x => {
       eprintln!("unknown sub {}", x);
